@@ -3,7 +3,7 @@
  "name": "gen64_compare",
  "props": ["C16"],
  "level": "U",
- "tier": "wip",
+ "tier": "quick",
  "harness": "h_gen_cmp",
  "defines": ["GEN64_CB_ENUM"],
  "enforce": ["ext2fs_compare_generic_bmap"],
